@@ -1,0 +1,100 @@
+//! Verification hooks: thin public wrappers around crate-private building blocks so that the
+//! external verification harness (/verif) can drive them with operation sequences and compare them
+//! with its formal model. Compiled only with the `_verif_hooks` feature; adds no behaviour.
+#![allow(missing_docs, clippy::missing_panics_doc, clippy::must_use_candidate)]
+
+use crate::base::{Bytes, Spanned};
+use crate::memory::{Arena, LimitedVec, MemoryLimitExceededError, SharedMemoryLimiter};
+use crate::rewritable_units::TextDecoder;
+use crate::rewriter::{AsciiCompatibleEncoding, RewritingError};
+
+pub struct VerifArena(Arena);
+
+impl VerifArena {
+    pub fn new(limiter: SharedMemoryLimiter, preallocated_size: usize) -> Self {
+        Self(Arena::new(limiter, preallocated_size))
+    }
+    pub fn append(&mut self, slice: &[u8]) -> Result<(), MemoryLimitExceededError> {
+        self.0.append(slice)
+    }
+    pub fn init_with(&mut self, slice: &[u8]) -> Result<(), MemoryLimitExceededError> {
+        self.0.init_with(slice)
+    }
+    pub fn shift(&mut self, byte_count: usize) {
+        self.0.shift(byte_count);
+    }
+    pub fn bytes(&self) -> &[u8] {
+        self.0.bytes()
+    }
+}
+
+pub struct VerifLimitedVec<T>(LimitedVec<T>);
+
+impl<T> VerifLimitedVec<T> {
+    pub fn new(limiter: SharedMemoryLimiter) -> Self {
+        Self(LimitedVec::new(limiter))
+    }
+    pub fn push(&mut self, element: T) -> Result<(), MemoryLimitExceededError> {
+        self.0.push(element)
+    }
+    pub fn len(&self) -> usize {
+        self.0.len()
+    }
+    pub fn is_empty(&self) -> bool {
+        self.0.len() == 0
+    }
+    pub fn drain_from(&mut self, start: usize) -> usize {
+        self.0.drain(start..).count()
+    }
+    pub fn as_slice(&self) -> &[T] {
+        &self.0
+    }
+}
+
+/// One output of the text decoder: (text, last_in_text_node, encoding name, source start, source end).
+pub type VerifDecodedChunk = (String, bool, &'static str, usize, usize);
+
+pub struct VerifTextDecoder(TextDecoder);
+
+impl VerifTextDecoder {
+    pub fn new(encoding: AsciiCompatibleEncoding) -> Self {
+        Self(TextDecoder::new(encoding))
+    }
+    pub fn set_encoding(&mut self, encoding: AsciiCompatibleEncoding) {
+        self.0.set_encoding(encoding);
+    }
+    pub fn feed_text(
+        &mut self,
+        source_start: usize,
+        raw: &[u8],
+        last_in_text_node: bool,
+        out: &mut Vec<VerifDecodedChunk>,
+    ) -> Result<(), RewritingError> {
+        self.0.feed_text(
+            Spanned::new(source_start, Bytes::new(raw)),
+            last_in_text_node,
+            &mut |text, last, enc, loc| {
+                out.push((text.to_owned(), last, enc.name(), loc.bytes().start, loc.bytes().end));
+                Ok(())
+            },
+        )
+    }
+    pub fn flush_pending(&mut self, out: &mut Vec<VerifDecodedChunk>) -> Result<(), RewritingError> {
+        self.0.flush_pending(&mut |text, last, enc, loc| {
+            out.push((text.to_owned(), last, enc.name(), loc.bytes().start, loc.bytes().end));
+            Ok(())
+        })
+    }
+}
+
+pub fn escape_body_text(content: &str) -> String {
+    let mut out = String::new();
+    crate::html::escape_body_text(content, &mut |s| out.push_str(s));
+    out
+}
+
+pub fn escape_double_quotes_only(content: &[u8]) -> Vec<u8> {
+    let mut out = Vec::new();
+    crate::html::escape_double_quotes_only(Bytes::new(content), &mut |s| out.extend_from_slice(s));
+    out
+}
